@@ -64,6 +64,12 @@ CLAIMED.update({
    note="fault by offset, one per behaviour; spinning is a poll budget of 32 polls per wire byte + 2000", ref="6 C12"),
 })
 
+CLAIMED.update({
+ "C10": dict(technique="TLA+ spec of the output side (Writer.tla: writer tasks, reply flushing, one mutex, transport cuts/Pending) model-checked over all poll orders; behaviours replayed on real StreamWriters with byte comparison",
+   text="Writer.tla has one action per mutex attempt and per transport call of the task being polled; the byte log is a list of record images with the number of bytes accepted so far, so NoInterleave ('every record but the last is complete') and LockHeldWhileWriting are state invariants over all poll orders, cut positions and Pending points. Each behaviour is replayed on StreamWriters handed out by a real Request (plus the Request's own reply flushing as fourth producer) and the bytes that reached the mock transport are compared with the specification's record images (type, id, length, padding, payload, order).",
+   note="mutex fairness / wake-ups are not modelled (not part of the property); transport errors on the writer path are covered by C12", ref="6 C10"),
+})
+
 NOT_YET = {}
 
 def main():
